@@ -958,6 +958,8 @@ class X:
             items = args[0].items if len(args) == 1 and isinstance(args[0], T) else args
             if len(args) == 1 and isinstance(args[0], Arr):
                 return Red(name, args[0])
+            if any(isinstance(i_, Red) for i_ in items):
+                return Red(name, T(list(items)))
             r = items[0]
             for x in items[1:]:
                 c = num2(x, r, (lambda p, q: p < q) if name == 'min' else (lambda p, q: p > q))
@@ -1086,7 +1088,7 @@ class X:
             return Arr(v.shape, lambda *i: 0, v.dtype, 'fresh')
         if fn in ('sum', 'prod', 'all', 'any', 'min', 'max'):
             v = args[0]
-            if isinstance(v, Arr):
+            if isinstance(v, (Arr, Red)):
                 return Red(fn, v, kwargs.get('axis', args[1] if len(args) > 1 else None))
             if isinstance(v, (bool, z3.BoolRef)) and fn in ('all', 'any'):
                 return B(v)
